@@ -167,12 +167,10 @@ func init() {
 			if !d.Mine(pi) {
 				continue
 			}
-			// odd seeds: the very first observation of a value happens under an overriding formatter
-			// (anything the library remembers about a value must not outlive the override)
-			fmodes := modes
-			if (d.Seed+uint64(pi))%2 == 1 {
-				fmodes = []string{"stub", "default", "error", "default"}
-			}
+			// the very first observation of a value happens under an overriding formatter (anything the
+			// library remembers about a value must not outlive the override); the default formatter
+			// comes first in every other driver
+			fmodes := []string{"stub", "default", "error", "default"}
 			for _, fm := range fmodes {
 				for _, pm := range modes {
 					d.Do(Ev{"op": "ovr.set", "pkg": p.pkg, "fmt": fm, "parse": pm})
